@@ -22,6 +22,23 @@ SPECS = [
          ],
          raises={'*': {'ensures': ["raised('e1') or raised('e2') or raised('h1')"]}},
          serves=PROP + ["C05"]),
+    dict(id='S-Define-clauses',
+         text='A<div tal:define="global b e2; a e1; local c e3; d e4">%s</div>B' % H1,
+         own_names=['a', 'b', 'c', 'd'],
+         ensures=[
+             # each ';'-separated clause has its own scope keyword: it never carries over
+             "trace('e2', 'e1', 'e3', 'e4', 'h1')",
+             "S() == S0() + 'A<div>' + out(1) + '</div>B'",
+             "visible_at('h1', 'a') is val(1)", "visible_at('h1', 'b') is val(2)",
+             "visible_at('h1', 'c') is val(3)", "visible_at('h1', 'd') is val(4)",
+             "visible('a') is visible0('a')", "visible('c') is visible0('c')",
+             "visible('d') is visible0('d')",
+             "visible('b') is val(2)", "global_now('b') is val(2)",
+             "scope_frame('a', 'b', 'c', 'd')",
+         ],
+         raises={'*': {'ensures': ["raised('e1') or raised('e2') or raised('e3') or raised('e4') or "
+                                   "raised('h1')"]}},
+         serves=PROP + ["C05"]),
     dict(id='S-Condition', text='A<div tal:condition="e3">%s</div>B' % H1,
          ensures=[
              "evals(3) == 1",
